@@ -65,7 +65,7 @@ def switch(*args):
 @njit(cache=True)
 def Saturation(x, xmin, xmax):
     # clip in floating point: an integer-valued x would be clipped to integers (Saturation(2, 0.6, 1.6) == 1)
-    x = np.asarray(x).reshape((-1,)).astype(np.float64)
+    x = np.asarray(x).ravel().astype(np.float64)
     # minimum/maximum broadcast a length-1 x against vector limits; numba's np.clip does not
     return np.minimum(np.maximum(x, xmin), xmax)
 
@@ -74,37 +74,37 @@ def Saturation(x, xmin, xmax):
 def In(x, xmin, xmax):
     # a float mask: an int32 mask times an integer literal of the generated code stays int32 and wraps around at 2**31
     # (2000000000*In(x, 0, 2) + 2000000000*In(x, 1, 3) == -294967296 where both masks are 1)
-    x = np.asarray(x).reshape((-1,))
+    x = np.asarray(x).ravel()
     return np.bitwise_and(x >= xmin, x <= xmax).astype(np.float64)
 
 
 @njit(cache=True)
 def GreaterThan(x, y):
-    x = np.asarray(x).reshape((-1,))
+    x = np.asarray(x).ravel()
     return (x > y).astype(np.float64)
 
 
 @njit(cache=True)
 def LessThan(x, y):
-    x = np.asarray(x).reshape((-1,))
+    x = np.asarray(x).ravel()
     return (x < y).astype(np.float64)
 
 
 @njit(cache=True)
 def And(x, y):
-    x = np.asarray(x).reshape((-1,))
+    x = np.asarray(x).ravel()
     return np.logical_and(x != 0, np.asarray(y) != 0).astype(np.float64)
 
 
 @njit(cache=True)
 def Or(x, y):
-    x = np.asarray(x).reshape((-1,))
+    x = np.asarray(x).ravel()
     return np.logical_or(x != 0, np.asarray(y) != 0).astype(np.float64)
 
 
 @njit(cache=True)
 def Not(x):
-    x = np.asarray(x).reshape((-1,))
+    x = np.asarray(x).ravel()
     return np.ones_like(x) - x
 
 
